@@ -160,6 +160,29 @@ def run_spec(p, res):
         if nbad:
             res.bump("wrong_hard_decisions", nbad)
 
+    # ---------- one LONG call (the point set repeated to 2^15+3 points, 1-D and as 3 rows): every point is answered as in the short call
+    if kind == "memoryless":
+        t1, _ = present(Yh, "1d")
+        for name, f, NL in (("hard", lambda z: dem(z), (1 << 15) + 3), ("soft", lambda z: dem(z, 0.7), (1 << 12) + 3)):
+            if name == "soft" and len(pts) > 16:
+                continue             # the library's soft path loops per bit and symbol: long inputs only for the small constellations
+            reps = NL // t1.shape[0] + 1
+            tl = t1.repeat(reps)[:NL]
+            try:
+                short = f(t1).reshape(t1.shape[0], -1).to(torch.float64)
+                want = short.repeat(reps, 1)[:NL]
+                for lay, tt in (("1d", tl), ("3,L", tl[: NL // 3 * 3].reshape(3, -1))):
+                    got = f(tt).reshape(-1, short.shape[1]).to(torch.float64)
+                    res.ev(int(got.shape[0]), nontrivial=int(got.shape[0]), transitions=1)
+                    w = want[: got.shape[0]]
+                    bad = (got != w) if name == "hard" else ((got - w).abs() > 1e-5 * (1 + w.abs()))
+                    if got.shape != w.shape or bool(bad.any()):
+                        i = int(bad.any(dim=1).nonzero()[0]) if got.shape == w.shape else 0
+                        v("nearest" if name == "hard" else "llr-form", f"long input ({lay}, {tt.numel()} points): point {i} ({complex(tt.reshape(-1)[i]):.4f}) answered {got[i].tolist() if got.shape == w.shape else tuple(got.shape)}, "
+                          f"the same point in a call of {t1.shape[0]} points is answered {w[i].tolist()}", {"layout": "long-" + lay})
+                        break
+            except Exception as e:  # noqa: BLE001
+                v("raises", f"long input, {name} decisions: {type(e).__name__}: {str(e)[:160]}")
     # ---------- soft decisions
     Ys = point_set(pts, soft_g, real_only)
     dps = decision_points(Ys)
